@@ -935,14 +935,29 @@ def Engine.rejectCurrent (e4 : Engine) (id : Nat) (resolution : Resolution) (x :
   let e4r := if resolution.alias.isSome then
       { e4 with outRes := e4.outRes.reset ((e4.settings.map (·.topicAliasMaximum)).getD 0) } else e4
   let (e5, r5) := { e4r with current := none }.completeFailure id x.name
-  if r5.isOk then .cont e5 else .ret e5 r5
+  if !r5.isOk then .ret e5 r5
+  -- without a CONNECT there is no handshake to wait for: the connection attempt has failed
+  else if isConnectOp e4 id then .ret e5 (.err "PacketValidationFailure")
+  else .cont e5
+
+/-- `validate_packet_for_protocol_version`: MQTT 3.1.1 [MQTT-3.1.2-22] forbids a password without a user name -/
+def validateForVersion (v : Version) (p : Packet) : VRes :=
+  match p with
+  | .connect c => okIf (!(v == .v311 && c.password.isSome && c.username.isNone))
+  | _ => .ok ()
+
+/-- last-chance validation: the packet's own rules and the server's limits, then the rules of the protocol version -/
+def Engine.lastChance (e4 : Engine) (packet : Packet) (resolution : Resolution) : VRes :=
+  match validateOutboundInternal packet e4.settings (e4.cfg.connect.sessionExpiry.getD 0) (some resolution) with
+  | .error x => .error x
+  | .ok _ => validateForVersion e4.cfg.version packet
 
 /-- alias resolution, last-chance validation and encoder set-up for the operation just made current -/
 def Engine.prepareCurrent (e3 : Engine) (id : Nat) (o : Op) : Seat :=
   let packet := o.pubrel.getD o.packet
   let (res', resolution) := e3.resolveOutbound packet
   let e4 := { e3 with outRes := res' }
-  match validateOutboundInternal packet e4.settings (e4.cfg.connect.sessionExpiry.getD 0) (some resolution) with
+  match e4.lastChance packet resolution with
   | .error .panicNoSettings => .ret e4 (.panic "unwrap_negotiated_settings@validate")
   | .error x => e4.rejectCurrent id resolution x
   | .ok _ =>
